@@ -69,7 +69,7 @@ def value_expr(v, r=None):
         return "[" + ", ".join(items) + "]"
     if t != "obj":
         return render.value_expr(v, None)
-    base, over = [], []
+    base, over, removed = [], [], []
     for f in v["f"]:
         k = render.cps_to_str(f["k"])
         e = value_expr(f["v"], r)
@@ -78,7 +78,13 @@ def value_expr(v, r=None):
         if x >= 0.3:
             base.append(ks + ("::" if f["h"] else ":") + " " + e)
         elif not f["h"]:
-            if x < 0.15:
+            if x < 0.04:
+                # a hidden definition is removed and the field is added again with default visibility:
+                # nothing of the removed definition (not its visibility either) may survive
+                base.append(ks + ":: null")
+                removed.append(render.str_lit(k))
+                over.append(ks + ": " + e)
+            elif x < 0.15:
                 base.append(ks + ":: null")
                 over.append(ks + "::: " + e)          # ::: forces visibility
             else:
@@ -95,7 +101,10 @@ def value_expr(v, r=None):
         r.shuffle(base)
         r.shuffle(over)
     if over:
-        return "({" + ", ".join(base) + "} + {" + ", ".join(over) + "})"
+        lower = "{" + ", ".join(base) + "}"
+        for rk in removed:
+            lower = "std.objectRemoveKey(" + lower + ", " + rk + ")"
+        return "(" + lower + " + {" + ", ".join(over) + "})"
     if r is not None and len(base) >= 2 and r.random() < 0.3:
         k = r.randrange(1, len(base))
         return "({" + ", ".join(base[:k]) + "} + {" + ", ".join(base[k:]) + "})"
